@@ -1,6 +1,8 @@
 SPECIFICATION ScenSpec
 CONSTANTS RootPostOverwrites = FALSE
           FallbackWritten = TRUE
+          CarryInvalid = TRUE
+          HackPositions = {}
           NR = 3
 INVARIANT Partition
 INVARIANT CardMeetsTarget
